@@ -79,6 +79,7 @@ class World(object):
         self.calls_by_op = {}
         self.fired = []
         self.raised = []           # exception objects injected
+        self.raised_by_op = {}
         self.icalls = []           # integrator call records (all depths)
         self.icall_stack = []
         self.top_icalls_done = 0
@@ -186,11 +187,13 @@ class World(object):
         return "outside_step"
 
     def make_exc(self, flt):
+        tag = "%s@%s/op%s" % (flt["seam"], flt["at"], self.op_index)
         if flt["kind"] == "kbdint":
-            e = KeyboardInterrupt("injected %s@%s" % (flt["seam"], flt["at"]))
+            e = KeyboardInterrupt("injected " + tag)
         else:
-            e = Boom("%s@%s" % (flt["seam"], flt["at"]))
+            e = Boom(tag)
         self.raised.append(e)
+        self.raised_by_op.setdefault(self.op_index, []).append(e)
         return e
 
     # ------------------------------------------------------------------ seams call back here
